@@ -11,6 +11,7 @@ import HtpModel.Lemmas.ReqLine
 import HtpModel.Pinned.Eq
 import HtpModel.Lemmas.CFunsClasses
 import HtpModel.Lemmas.CFunsAsBody
+import HtpModel.Lemmas.CFunsBstr
 
 namespace Htp.C02
 open Htp Htp.Gen Htp.Parse
@@ -263,5 +264,12 @@ theorem C02_translated_classes (fuel : Nat) (c : UInt8) :
 theorem C02_translated_line_as_body (d : Bytes) (h1 : d.length < 9223372036854775808) (fuel : Nat) (hf : d.length < fuel) :
     (Htp.Gen.C.htp_treat_response_line_as_body fuel d d.length).map (·.1) = some (Htp.CSem.b2i (treatResponseLineAsBody d)) :=
   Htp.CFuns.htp_treat_response_line_as_body_eq d h1 fuel hf
+
+/-- the folding test of a header line (htp_connp_is_line_folded: -1 for an empty line, else the folding-character test of its first byte),
+    translated code = model -/
+theorem C02_translated_line_folded (fuel : Nat) (d : Bytes) :
+    (Htp.Gen.C.htp_connp_is_line_folded fuel d d.length).map (·.1)
+      = some (match isLineFolded d with | none => -1 | some b => Htp.CSem.b2i b) :=
+  Htp.CFuns.BstrC.htp_connp_is_line_folded_eq fuel d
 
 end Htp.C02
